@@ -199,6 +199,9 @@ func digest(slot uint64, committee uint64, root phase0.Root, srcEpoch uint64, sr
 
 const sigMarker = 0xa7
 
+// maxValidatorsPerCommittee is the consensus constant MAX_VALIDATORS_PER_COMMITTEE.
+const maxValidatorsPerCommittee = 2048
+
 func makeSig(v uint64, seq int, d [32]byte) phase0.BLSSignature {
 	var s phase0.BLSSignature
 	s[0] = sigMarker
@@ -427,6 +430,8 @@ func genCommittees(t *rapid.T, label string, n int) []Committee {
 			rapid.Uint64Range(1, 8),
 			rapid.Uint64Range(9, 200),
 			rapid.Uint64Range(201, 2048),
+			// around and beyond MAX_VALIDATORS_PER_COMMITTEE: a node can deliver any length
+			rapid.SampledFrom([]uint64{2047, 2048, 2049, 2050, 4096, 100000}),
 		).Draw(t, label+"Size")
 		cs = append(cs, Committee{Index: idx, Size: size})
 	}
@@ -530,9 +535,6 @@ func genCase(t *rapid.T) Case {
 				}
 				if cm.Size < 1 {
 					cm.Size = 2
-				}
-				if cm.Size > 2048 {
-					cm.Size = 2047
 				}
 			} else {
 				cm = genCommittees(t, "extraCommittee", 1)[0]
@@ -800,7 +802,10 @@ func judgeCall(what string, slot uint64, tuples []tuple, expect map[uint64]bool,
 	}
 	var missing []uint64
 	for v := range expect {
-		if !seen[v] {
+		// a committee longer than MAX_VALIDATORS_PER_COMMITTEE cannot exist on chain: its
+		// validators need not attest (vouch creates no attestation for them), but whatever
+		// is signed or submitted for them is still judged against their own assignment
+		if !seen[v] && byV[v].size <= maxValidatorsPerCommittee {
 			missing = append(missing, v)
 		}
 	}
@@ -826,6 +831,7 @@ type stats struct {
 	n                                                           int
 	extraSlots                                                  int
 	recurringIndexOtherLength                                   bool
+	oversized                                                   bool
 }
 
 func runAndJudge(c *Case) (harness string, js []callJudgement, st stats) {
@@ -1042,6 +1048,11 @@ func runAndJudge(c *Case) (harness string, js []callJudgement, st stats) {
 		}
 	}
 	st.n = len(c.Vals)
+	for _, v := range c.Vals {
+		if c.Committees[v.C].Size > maxValidatorsPerCommittee {
+			st.oversized = true
+		}
+	}
 	st.differing = len(c.Vals) >= 2 && len(tuplesSeen) >= 2
 	st.multi = len(committeesSeen) >= 2
 
@@ -1100,6 +1111,9 @@ func check(t ev.TB, c *Case) {
 	}
 	if st.multi {
 		labels = append(labels, "several-committees")
+	}
+	if st.oversized {
+		labels = append(labels, "committee-longer-than-2048")
 	}
 	labels = append(labels, "log-level-"+levelOf(c.LogLevel).String())
 	if c.SignFault != "" {
